@@ -33,8 +33,9 @@ class PScen:
     """A process-level scenario: configuration, initial messages {(md, sub, name): id}, decoys, device map and what the documented
     behaviour makes of each message: expect(md, sub, name) -> (maildir, subdir, extra flag letters)."""
 
-    def __init__(self, name, conf, msgs, expect, decoys=(), devmap=(), dirs=('src', 'dstA', 'dstB')):
+    def __init__(self, name, conf, msgs, expect, decoys=(), devmap=(), dirs=('src', 'dstA', 'dstB'), pats=None):
         self.name, self.conf, self.msgs, self.expect, self.decoys, self.devmap, self.dirs = name, conf, msgs, expect, list(decoys), devmap, dirs
+        self.pats = pats
 
     def tree(self):
         t = {}
@@ -78,6 +79,85 @@ def pscenarios(tier):
     return S
 
 
+# Maildir names made of characters that mean something elsewhere in mdsort (back-references and macros of interpolate(), printf
+# directives, the flag separator of file names, blanks / newline of the lexer, glob characters, the comment and option characters,
+# 8-bit bytes, a component that is itself called new/cur/tmp), also as a PARENT component.  The documented destination of
+# move / flag / flags does not depend on how the maildir is called.
+SPECIAL = ['box\\0', 'm\\1x', 'a\\2', 'n\\0.1b', 'p${path}', 'q${', 'r%s%n%', 's:2,S', 't u  v', 'w\nx', 'y*?[z]', 'caf\xe9\xff\x80', 'a:b', "q'`$(x)",
+           '#h', '-n', '~t', 'new', 'out\\0er/in', 'o:2,/in ner']
+COND = ('header "To" /(us)(er)/', [('(us)(er)', '')])      # an interpolating condition: \0 = user, \1 = us, \2 = er
+
+
+def cstr(path):
+    """A literal path as the text between the quotes of a configuration string: `\\"` is the only escape of yylex1, everything else
+    (backslash, newline, 8-bit) is taken as it is; `${` would start a macro, so the `$` comes out of the macro d = "$" (expansion is
+    single-pass, the result is not looked at again)."""
+    assert not path.endswith('\\') and '\\"' not in path
+    return path.replace('"', '\\"').replace('${', '${d}{')
+
+
+def mkconf(text):
+    return ('d = "$"\n' if '${d}' in text else '') + text
+
+
+def mdref(rel):
+    """How the configuration names the maildir at `rel` of the sandbox: below home/ through ~, otherwise by its absolute path."""
+    return ('~/' + cstr(rel[5:])) if rel.startswith('home/') else (R + '/' + cstr(rel))
+
+
+def as_destination(name):
+    """Can the name be written as a move destination that means itself?  (`\\N` and `${...}` in a destination ARE interpolated.)"""
+    return not re.search(r'\\\d|\$\{', name)
+
+
+def expansions(name):
+    """Names an erroneous interpolation of the maildir's own name would produce: decoy maildirs make a wrong destination visible."""
+    out = set()
+    for whole in ('user', '4', '5', '6', ''):
+        e = name.replace('\\0.1', 'us').replace('\\0', whole).replace('\\1', 'us').replace('\\2', 'er')
+        if e != name and e and not e.endswith('/') and '//' not in e:
+            out.add(e)
+    return sorted(out)
+
+
+def special_scenarios(tier):
+    S = []
+    for n, N in enumerate(SPECIAL):
+        for via in ('', 'home/'):
+            M = via + N
+            msgs = {(M, sub, name): i + 1 for i, (sub, name) in enumerate(PNAMES)}
+            dirs = tuple([M, 'src', 'dstA', 'dstB'] + [via + e for e in expansions(N)])
+            walked = [
+                ('flag-cur-cond', 'match new and %s flag !new' % COND[0], COND[1], lambda md, sub, nm, M=M: (M, 'cur' if sub == 'new' else sub, '')),
+                ('flag-cur', 'match new flag !new', [], lambda md, sub, nm, M=M: (M, 'cur' if sub == 'new' else sub, '')),
+                ('flag-new', 'match header "X-Id" /^[456]$/ flag new', [('^[456]$', '')], lambda md, sub, nm, M=M: (M, 'new' if nm[0] in '346' else sub, '')),
+                ('flags', 'match %s flags "Tb"' % COND[0], COND[1], lambda md, sub, nm, M=M: (M, sub, 'Tb')),
+                ('move-out', 'match all move "%s"' % mdref('dstA'), [], lambda md, sub, nm: ('dstA', sub, '')),
+                ('move-flag-out', 'match new and %s move "%s" flag !new' % (COND[0], mdref('dstB')), COND[1],
+                 lambda md, sub, nm, M=M: ('dstB', 'cur', '') if sub == 'new' else (M, sub, '')),
+            ]
+            if via and tier == 'quick':
+                walked = walked[:1] + walked[3:4]
+            for kind, rule, pats, expect in walked:
+                S.append(PScen('special-%d-%s%s' % (n, kind, '-tilde' if via else ''), mkconf('maildir "%s" {\n\t%s\n}\n' % (mdref(M), rule)), msgs, expect,
+                               dirs=dirs, pats=pats))
+            if not as_destination(N):
+                continue
+            smsgs = {('src', sub, name): i + 1 for i, (sub, name) in enumerate(PNAMES)}
+            into = [
+                ('move-in', 'match all move "%s"' % mdref(M), [], lambda md, sub, nm, M=M: (M, sub, '')),
+                ('move-flag-in', 'match new move "%s" flag !new' % mdref(M), [], lambda md, sub, nm, M=M: (M, 'cur', '') if sub == 'new' else ('src', sub, '')),
+                ('flag-move-in', 'match new and %s flag !new move "%s"' % (COND[0], mdref(M)), COND[1],
+                 lambda md, sub, nm, M=M: (M, 'cur', '') if sub == 'new' else ('src', sub, '')),
+            ]
+            if via and tier == 'quick':
+                into = into[:1]
+            for kind, rule, pats, expect in into:
+                S.append(PScen('special-%d-%s%s' % (n, kind, '-tilde' if via else ''), mkconf('maildir "%s/src" {\n\t%s\n}\n' % (R, rule)), smsgs, expect,
+                               dirs=dirs, pats=pats))
+    return S
+
+
 def judge(ps, scen, r):
     """The property evaluated on the real final tree (independent of the model)."""
     probs = []
@@ -95,9 +175,9 @@ def judge(ps, scen, r):
             continue
         rel = where[0]
         emd, esub, extra = ps.expect(md, sub, name)
-        fmd, fsub, fname = rel.split('/')
+        fmd, fsub, fname = rel.rsplit('/', 2)
         if (fmd, fsub) != (emd, esub):
-            probs.append('message %d (%s) is in %s/%s, documented destination %s/%s' % (i, rel0, fmd, fsub, emd, esub))
+            probs.append('message %d (%r) is in %r/%s, documented destination %r/%s' % (i, rel0, fmd, fsub, emd, esub))
         moved = rel != rel0
         want = set(letters(name)) | set(extra)
         if sub == 'new' and fsub == 'cur':
@@ -134,25 +214,42 @@ def sequence_part(rep, tools, tier):
     import itertools
     maxlen = 3 if tier == 'quick' else 4
     seqs = [s for n in range(1, maxlen + 1) for s in itertools.product(range(len(ACTS)), repeat=n)]
-    jobs = [(sub, s) for sub in ('new', 'cur') for s in seqs]
+    plain = ('src', 'dstA', 'dstB')
+    jobs = [(sub, s, plain, False) for sub in ('new', 'cur') for s in seqs]
+    # the same sequences (one action shorter) with the walked maildir and the two destinations called by SPECIAL names, under a rule with
+    # an interpolating condition: the place the message ends in does not depend on what the maildirs are called
+    dests = [n for n in SPECIAL if as_destination(n)]
+    for k, src in enumerate(SPECIAL):
+        names = (src, dests[k % len(dests)], dests[(k + 5) % len(dests)])
+        if len(set(names)) == 3 and (tier != 'quick' or k % 2 == 0 or not as_destination(src)):
+            jobs += [(sub, s, names, True) for sub in ('new', 'cur') for s in seqs if len(s) < maxlen]
 
     def one(job):
-        sub, s = job
+        sub, s, (msrc, mA, mB), special = job
         cond = 'new' if sub == 'new' else '! new'
-        conf = 'maildir "%s/src" {\n\tmatch %s %s\n}\n' % (R, cond, ' '.join(ACTS[i][0] for i in s))
+        if special:
+            cond = COND[0] + ' and ' + cond
+        pathof = {'%s/dstA': mA, '%s/dstB': mB}
+        text = lambda i: ('move "%s"' % mdref(pathof[ACTS[i][2]])) if ACTS[i][1] == 'm' else ACTS[i][0]
+        conf = mkconf('maildir "%s" {\n\tmatch %s %s\n}\n' % (mdref(msrc), cond, ' '.join(text(i) for i in s)))
         name = '1.host' if sub == 'new' else '1.host:2,S'
         tree = {}
-        for d in ('src', 'dstA', 'dstB'):
+        for d in (msrc, mA, mB) + (tuple(expansions(msrc)) if special else ()):
             tree.update(proc.maildir_tree(d, {}))
-        tree['src/%s/%s' % (sub, name)] = ws.msg(1)
+        tree['%s/%s/%s' % (msrc, sub, name)] = ws.msg(1)
         scen = proc.Scenario(tools, conf, tree)
         try:
             r = scen.run(trace=False)
             where = [rel for rel, v in r.final.items() if v[0] == 'file' and re.search(r'/(new|cur)/[^/]+$', rel) and ws.msg_id(v[1]) == 1]
             root = scen.root
-            acts = [(ACTS[i][1] + (ACTS[i][2] % root if '%s' in ACTS[i][2] else ACTS[i][2])).encode() for i in s]
-            req = ' '.join(['dest', vlib.hexs(('%s/src' % root).encode()), vlib.hexs(sub.encode()), vlib.hexs(name.encode())] + [vlib.hexs(a) for a in acts])
-            return {'sub': sub, 'seq': [ACTS[i][0].replace(R + '/', '') for i in s], 'status': r.status, 'where': where, 'root': root, 'req': req,
+            L = lambda x: x.encode('latin-1')
+            acts = [L(ACTS[i][1] + ('%s/%s' % (root, pathof[ACTS[i][2]]) if ACTS[i][1] == 'm' else ACTS[i][2])) for i in s]
+            req = ' '.join(['dest', vlib.hexs(L('%s/%s' % (root, msrc))), vlib.hexs(L(sub)), vlib.hexs(L(name))] + [vlib.hexs(a) for a in acts])
+            seq = [ACTS[i][0].replace(R + '/', '') for i in s]
+            if special:
+                seq = ['maildirs src=%r dstA=%r dstB=%r, condition %s' % (msrc, mA, mB, COND[0])] + seq
+            return {'sub': sub, 'seq': seq, 'status': r.status, 'where': where, 'root': root, 'req': req, 'special': special,
+                    'stderr': r.err[-200:].decode('latin-1'),
                     'fname': where[0].rsplit('/', 1)[1] if len(where) == 1 else None, 'has_flags': any(ACTS[i][1] == 'F' for i in s)}
         finally:
             scen.cleanup()
@@ -161,7 +258,8 @@ def sequence_part(rep, tools, tier):
         res = list(ex.map(one, jobs))
     spec = vlib.run_batch([vlib.driver_path()], ['S ' + r['req'] for r in res])
     model = vlib.run_batch([vlib.driver_path()], ['M ' + r['req'] for r in res])
-    stats = {'runs': len(res), 'documented_place': 0, 'known_F12': 0, 'violations': 0, 'corr': 0}
+    stats = {'runs': len(res), 'runs_with_special_maildir_names': len([r for r in res if r['special']]), 'documented_place': 0, 'known_F12': 0,
+             'violations': 0, 'corr': 0}
     corr = []
     for r, sp, mo in zip(res, spec, model):
         ok, path = sp.split(' ')
@@ -169,7 +267,7 @@ def sequence_part(rep, tools, tier):
         got = [os.path.join(r['root'], os.path.dirname(w)) for w in r['where']]
         pinned = vlib.unhex(mo[3:]).decode('latin-1') if mo.startswith('OK ') else None
         desc = {'source_subdir': r['sub'], 'actions': r['seq'], 'exit_status': r['status'], 'found_in': [g.replace(r['root'], R) for g in got],
-                'documented_destination': want.replace(r['root'], R), 'destOK': ok == '1'}
+                'documented_destination': want.replace(r['root'], R), 'destOK': ok == '1', 'stderr': r['stderr']}
         if len(got) != 1 or r['status'] != 0:
             stats['violations'] += 1
             rep.finding('unlisted', dict(desc, what='the message does not exist exactly once after the run, or the run failed'))
@@ -205,7 +303,8 @@ def process_part(rep, sc):
     results = []
 
     def one(ps):
-        spec = ws.Spec(ps.name, ps.conf, [('^[456]$', '')] if 'X-Id' in ps.conf else [], tree=ps.tree(), devmap=ps.devmap)
+        pats = ps.pats if ps.pats is not None else ([('^[456]$', '')] if 'X-Id' in ps.conf else [])
+        spec = ws.Spec(ps.name, ps.conf, pats, tree=ps.tree(), devmap=ps.devmap)
         scen = spec.build(tools)
         try:
             r = scen.run()
@@ -216,16 +315,18 @@ def process_part(rep, sc):
                 probs.append('exit status %s: %s' % (r.status, r.err[-200:].decode('latin-1')))
             ut = [t for t in r.calls() if t['name'] == 'utimensat']
             return {'scenario': ps.name, 'problems': probs, 'conform': kind, 'detail': detail[:400] if kind != 'ok' else '',
-                    'utimensat_calls': len(ut), 'eexist': sum(1 for t in r.calls() if t['errno'] == 'EEXIST'), 'messages': len(ps.msgs)}
+                    'utimensat_calls': len(ut), 'eexist': sum(1 for t in r.calls() if t['errno'] == 'EEXIST'), 'messages': len(ps.msgs),
+                    'config': scen.config.replace(scen.root, R)[:400], 'maildirs': list(ps.dirs)}
         finally:
             scen.cleanup()
 
     with cf.ThreadPoolExecutor(vlib.NCPU) as ex:
-        results = list(ex.map(one, pscenarios(rep.tier)))
+        results = list(ex.map(one, pscenarios(rep.tier) + special_scenarios(rep.tier)))
     bad = []
     for res in results:
         if res['problems']:
-            rep.finding('unlisted', {'scenario': res['scenario'], 'what': res['problems'][:6], 'harness': 'process (real binary under the shim)'})
+            rep.finding('unlisted', {'scenario': res['scenario'], 'what': res['problems'][:6], 'harness': 'process (real binary under the shim)',
+                                     'config': res['config'], 'maildirs_in_the_sandbox': res['maildirs']})
         elif res['conform'] != 'ok':
             bad.append(res)
     if bad and not rep.violations:
@@ -294,7 +395,16 @@ def run(rep):
         'action_sequences_rule': 'every sequence of <= 3 (thorough 4) actions from {move A, move B, flag new, flag !new, flags "F"} from new and from '
                                  'cur on the real binary; the final place against Spec.dest; sequences outside Spec.destOK that end where the '
                                  'transcription of the pinned code says are the known finding F12, anything else wrong is a violation',
-        'process_scenarios': [{k: v for k, v in r.items() if k != 'detail'} for r in pres],
+        'process_scenarios': [{k: v for k, v in r.items() if k not in ('detail', 'config', 'maildirs')} for r in pres if not r['scenario'].startswith('special-')],
+        'special_names': {
+            'names': [repr(n) for n in SPECIAL], 'runs': len([r for r in pres if r['scenario'].startswith('special-')]),
+            'conform_ok': len([r for r in pres if r['scenario'].startswith('special-') and r['conform'] == 'ok']),
+            'rule': 'each name as the maildir being walked (flag !new with and without an interpolating condition, flag new, flags, move out, '
+                    'move+flag out) and, where a move destination can mean itself, as the destination (move, move+flag, flag+move), by absolute '
+                    'path and through ~; decoy maildirs at the names an interpolation of the maildir name would produce; same oracle as the '
+                    'plain scenarios (documented place, fresh name, flags, content, mtime; conformance with Model.mainP); the action-sequence '
+                    'sweep repeats its sequences with these names for the walked maildir and both destinations',
+        },
         'process_rule': '%d runs of the real binary under the shim (pinned clock/pid/host/counter): move on one device and across devices, '
                         'flag in both directions, flags, move+flag, and destinations pre-populated with the next 1-5 candidate names for '
                         'every flag suffix; judged on the real tree: each message exactly once at the documented place, freshly generated '
